@@ -180,7 +180,87 @@ def _classic_config(ctx, name, idx):
         state = nstate
 
 
+def _gym_adapters(ctx):
+    """The Gymnasium adapters are part of the step/reset contract (anchors: compatibility/gym.py).
+
+    (a) LeraxToGymEnv(TimeLimit(finite MDP, n)).step must report the reward and BOTH flags of the
+        transition taken — including steps that are terminal and truncated at once (the terminal and
+        env-level truncation sets overlap, and the time limit coincides with terminations);
+    (b) GymToLeraxEnv(gymnasium CartPole-v1) driven through the Gym-style `step` for several consecutive
+        steps must follow a twin Gymnasium env (same seed, same actions): successor observation, reward
+        and flags of exactly the transition taken from the given state.
+    """
+    import gymnasium
+    from lerax.compatibility.gym import GymToLeraxEnv, LeraxToGymEnv
+    from lerax.wrapper import TimeLimit
+    rng = ctx.rng
+    for rep in range(ctx.budget(3, 12)):
+        env0 = random_tabular(rng, n_noise=1, p_term=0.25, p_trunc=0.2)
+        env0 = eqx.tree_at(lambda e: e.inits, env0, env0.inits[:1])
+        # make sure some terminal states are also truncating states
+        both = np.asarray(env0.term) & (rng.random(env0.term.shape[0]) < 0.6)
+        env0 = eqx.tree_at(lambda e: e.trunc, env0, jnp.asarray(np.asarray(env0.trunc) | both))
+        n = int(rng.integers(1, 5))
+        desc = [{"w": "timeLimit", "n": n}]
+        tab = env0.describe()
+        g = LeraxToGymEnv(TimeLimit(env0, n))
+        obs, _ = g.reset(seed=int(rng.integers(0, 1000)))
+        st = {"s": int(env0.inits[0]), "clock": 0, "noise": 0, "counters": [0]}
+        for t in range(ctx.budget(30, 80)):
+            a = int(rng.integers(0, env0.action_space.n))
+            o, r, term, trunc, _ = g.step(a)
+            m = ctx.drv.call("tab_step", tab=tab, stack=desc, state=st, action=float(a),
+                             init=int(env0.inits[0]), noise=0)
+            c = {"kind": "lerax-to-gym-step", "time_limit": n, "t": t, "state": st, "action": a,
+                 "impl": {"obs": np.asarray(o), "reward": float(r), "terminal": bool(term), "truncate": bool(trunc)},
+                 "model": m}
+            ctx.case({"k": "l2g", "rep": rep, "t": t, "st": st, "a": a}, True)
+            ctx.count("gym-adapter:lerax-to-gym")
+            if m["terminal"] and m["truncate"]:
+                ctx.count("gym-adapter:terminal-and-truncated")
+            if not ctx.close(float(r), m["reward"]):
+                ctx.phi_fail("reward_is_transition_reward", c, key="gym_adapter:reward")
+            elif bool(term) != m["terminal"]:
+                ctx.phi_fail("terminal_flag", c, key="gym_adapter:terminal")
+            elif bool(trunc) != m["truncate"]:
+                ctx.phi_fail("truncate_flag", c, key="gym_adapter:truncate")
+            st = m["state"]
+            if m["terminal"] or m["truncate"]:
+                # the adapter keeps the auto-reset state; a Gymnasium user calls reset() next
+                obs, _ = g.reset(seed=int(rng.integers(0, 1000)))
+                st = {"s": int(env0.inits[0]), "clock": 0, "noise": 0, "counters": [0]}
+    for rep in range(ctx.budget(2, 6)):
+        seed = 0 if rep == 0 else int(rng.integers(0, 10_000))
+        ad = GymToLeraxEnv(gymnasium.make("CartPole-v1"))
+        twin = gymnasium.make("CartPole-v1")
+        state = ad.initial(key=jr.key(rep), seed=seed)
+        twin.reset(seed=seed)
+        for t in range(ctx.budget(12, 40)):
+            a = int(rng.integers(0, 2)) if rep % 2 else 1        # constant push terminates quickly
+            nstate, nobs, reward, term, trunc, _ = ad.step(state, jnp.asarray(a), key=jr.key(1000 + t))
+            to, tr, tt, ttr, _ = twin.step(a)
+            c = {"kind": "gym-to-lerax-step", "seed": seed, "t": t, "action": a,
+                 "impl": {"obs": np.asarray(nobs), "reward": float(reward), "terminal": bool(term), "truncate": bool(trunc)},
+                 "twin": {"obs": np.asarray(to), "reward": float(tr), "terminal": bool(tt), "truncate": bool(ttr)}}
+            ctx.case({"k": "g2l", "rep": rep, "t": t}, True)
+            ctx.count("gym-adapter:gym-to-lerax-step")
+            if not ctx.close(float(reward), float(tr)):
+                ctx.phi_fail("reward_is_transition_reward", c, key="gym_adapter:g2l_reward")
+            elif bool(term) != bool(tt):
+                ctx.phi_fail("terminal_flag", c, key="gym_adapter:g2l_terminal")
+            elif bool(trunc) != bool(ttr):
+                ctx.phi_fail("truncate_flag", c, key="gym_adapter:g2l_truncate")
+            elif not (tt or ttr) and not ctx.close(np.asarray(nobs), to, 4):
+                ctx.phi_fail("continue_returns_successor", c, key="gym_adapter:g2l_successor")
+            state = nstate
+            if tt or ttr:
+                ctx.count("gym-adapter:gym-to-lerax-episode-end")
+                break
+        ad.env.close(); twin.close()
+
+
 def run(ctx):
+    _gym_adapters(ctx)
     n_tab = ctx.budget(14, 120)
     for i in range(n_tab):
         _tab_config(ctx, i)
